@@ -564,6 +564,39 @@ def reload_phase(ctx, rng, w, ops, real, pks):
     ctx.count('reload:histories')
     old_objs = w.objs
     last = None; more = []
+    # link rows after commit: a session of its own reads everything back and compares with what both ends showed at commit
+    with db_session:
+        try:
+            w.objs = [None if pk is None else type(o)[pk] for o, pk in zip(old_objs, pks)]
+            got = full_read(w)
+        except core.ObjectNotFound:
+            got = 'skip'          # reported below
+        w.objs = old_objs
+        rollback()
+    if got != 'skip':
+        exp_live = [(i, x) for i, x in enumerate(norm_dump(final)) if x['alive']]
+        got_n = None if got is None else norm_dump([g if g is not None else {'ent': 0, 'alive': False, 'refs': [], 'colls': []} for g in got])
+        bad = None
+        if got_n is None: bad = ('read-raises', getattr(w, 'read_error', None), None)
+        else:
+            for i, x in exp_live:
+                if got_n[i] != x:
+                    bad = (i, got_n[i], x); break
+        if bad is not None:
+            key = 'committed-links-differ'
+            if bad[0] != 'read-raises':
+                i, g, x = bad
+                for (r, sd, l), (_, _, l2) in zip(x['colls'], g['colls']):
+                    if l != l2:
+                        kk = (r, bool(sd)); key += ':' + w.relkind(kk)
+                        if w.schema['rels'][r]['kind'] == 'symm' and (i in l) != (i in l2): key = 'committed-links-differ:symmetric-many-to-many-self-membership'
+                        break
+                else:
+                    for (r, sd, v), (_, _, v2) in zip(x['refs'], g['refs']):
+                        if v != v2: key += ':' + w.relkind((r, bool(sd))); break
+            ctx.violation('the link rows after commit differ from what both ends showed in the committing session',
+                          {'schema': w.schema, 'ops': ops}, observed=bad[1], expected=bad[2], key=key)
+            return True
     with db_session:
         try:
             loaded = [None if pk is None else type(o)[pk] for o, pk in zip(w.objs, pks)]
@@ -741,6 +774,7 @@ def full_read(w, only_live=False):
                     refs.append([key[0], key[1], None if v is None else w.idx(v)])
             out.append({'ent': e, 'alive': True, 'refs': refs, 'colls': colls})
     except Exception as e:
+        w.read_error = '%s: %s' % (type(e).__name__, str(e)[:160])
         return None
     return out
 
@@ -794,6 +828,32 @@ def reload_regression(ctx):
     w.db.disconnect()
 
 
+W_SYMM_SELF = {          # p.friends.add(p); p.friends.clear(); p.friends += [p]  -> the session shows {p}, the link row is never inserted
+    'schema': {'nent': 1, 'rels': [{'kind': 'symm', 'sym': True, 'a': S(0, coll=True)}]},
+    'ops': [{'k': 'create', 'e': 0, 'vals': []}, {'k': 'add', 'o': 0, 'a': [0, False], 'items': [0], 'via': 'list'},
+            {'k': 'clear', 'o': 0, 'a': [0, False]}, {'k': 'add', 'o': 0, 'a': [0, False], 'items': [0], 'via': 'iadd'}]}
+
+
+def committed_links_witness(ctx):
+    """link rows after commit for the minimal history of the finding committed-links-differ:symmetric-many-to-many-self-membership"""
+    wi = W_SYMM_SELF
+    w = World(wi['schema'])
+    with db_session:
+        for op in wi['ops']: w.apply(op)
+        before = sorted(w.idx(x) for x in w.objs[0]._vals_[w.attrs[(0, False)]])
+        commit()
+        pk = w.objs[0].get_pk()
+    with db_session:
+        after = sorted(0 for x in getattr(w.classes[0][pk], w.names[(0, False)]).copy())
+        rollback()
+    w.db.disconnect()
+    ctx.case({'witness': 'symmetric-self-membership'}, kind='witness')
+    if before != after:
+        ctx.violation('the link rows after commit differ from what both ends showed in the committing session',
+                      {'schema': wi['schema'], 'ops': wi['ops']}, observed=after, expected=before,
+                      key='committed-links-differ:symmetric-many-to-many-self-membership')
+
+
 def witnesses(ctx):
     """witnesses of `_full_false` theorems (none now) and repaired defects as regression inputs, replayed on the real code on every run"""
     for name, wi, key in WITNESSES:
@@ -810,6 +870,7 @@ def witnesses(ctx):
         ctx.case({'regression': name}, nontrivial=True, kind='regression')
         if v is not None: report_violation(ctx, wi['schema'], wi['ops'], v[0], v[1], v[2])
     reload_regression(ctx)
+    committed_links_witness(ctx)
     if ctx.driver.ok:
         for name, wi in REGRESSIONS:
             w = World(wi['schema'])
@@ -1045,11 +1106,7 @@ def _reload_set_case(ctx, rng):
             err = w.apply(op)                                  # only the target and the value are in the session
             snap = full_read(w)
             if snap is None:
-                try:
-                    for x in w.objs:
-                        for kk in w.ent_attrs[w.classes.index(type(x))]: getattr(x, w.names[kk])
-                    why = 'unknown'
-                except Exception as e: why = '%s: %s' % (type(e).__name__, e)
+                why = getattr(w, 'read_error', 'unknown')
                 ctx.violation('after the call on a freshly fetched object reading both ends in the same session raises',
                               hist, observed={'outcome': err or 'ok', 'read': why[:200]}, key='reload-set:read-raises:%s/%s' % (via, 'column-less-side' if colless else 'column-side'))
                 rollback(); return w
@@ -1077,13 +1134,7 @@ def _reload_set_case(ctx, rng):
                 w.objs = LazyObjs(w, classes + [None] * 0, list(pks2))
                 got = full_read(w)
                 if got is None or [x for x in norm_dump(got) if x['alive']] != [x for x in norm_dump(snap) if x['alive']]:
-                    why = None
-                    if got is None:
-                        try:
-                            for x in w.objs:
-                                if x is not None:
-                                    for kk in w.ent_attrs[w.classes.index(type(x))]: getattr(x, w.names[kk])
-                        except Exception as e: why = '%s: %s' % (type(e).__name__, e)
+                    why = getattr(w, 'read_error', None) if got is None else None
                     ctx.violation('link rows after commit differ from what both ends showed in the session (or cannot be read back)', hist,
                                   observed=why or got, expected=snap, key='reload-set:committed-links-differ:%s/%s' % (via, 'column-less-side' if colless else 'column-side'))
                 rollback()
